@@ -142,8 +142,12 @@ def matrix(ctx, report, rule, facts, config, want=("matrix", "exact", "dephit", 
         any_res = any(vals.get(c) == 1 for c in res_conds)
         any_dep = any(vals.get(c) == 1 for c in dep_conds)
         stores = [e for e in p.effects if e[0] == "store" and e[2][0] == "upvar"]
+        # conditions of this path that are not recognised check_intersection calls (e.g. a helper
+        # introduced by a refactoring): the "nothing intersects -> false" row cannot be judged then
+        unknown = [ct for (ct, cv, cn, cb) in p.conds if ct not in cond_info and ct[0] in ("call", "bin", "un")]
         if p.ret not in (("int", 0), ("int", 1)):
-            bad.append("a path returns a non-constant %s" % (p.ret,))
+            if "matrix" in want or "dephit" in want:
+                bad.append("a path returns a non-constant %s" % (p.ret[:2],))
             continue
         if "matrix" in want and any_res and p.ret != ("int", 1):
             bad.append("a path on which a resource intersection is non-empty returns false")
@@ -155,12 +159,9 @@ def matrix(ctx, report, rule, facts, config, want=("matrix", "exact", "dephit", 
             if stores and not any_dep:
                 bad.append("the captured flag is written on a path without a dependency hit")
                 flagged_ok = False
-            # resource conflict must be decided before the dependency is looked at
-            if not any_res and not any_dep and p.ret != ("int", 0):
-                bad.append("a path without any intersection returns true")
-        elif not any_res and not any_dep and p.ret != ("int", 0) and "exact" in want:
+        if "exact" in want and not any_res and not any_dep and not unknown and p.ret != ("int", 0):
             bad.append("a path without any intersection returns true")
-    report.ob(rule, "find_conflict/predicate/decision", not bad and n_ret >= 4,
+    report.ob(rule, "find_conflict/predicate/decision", not bad and (n_ret >= 4 or not ("matrix" in want or "dephit" in want)),
               "; ".join(sorted(set(bad))) if bad else "predicate is true exactly when one of the tested intersections is non-empty (%d paths)" % n_ret,
               site=site, config=config)
     if "index" in want:
@@ -502,8 +503,9 @@ def barrier(ctx, report, rule, facts, config, want=("set", "fwd", "range")):
         ok = len(ps) == 1
         detail = "%d path(s)" % len(ps)
         if ok:
-            stores = [e for e in ps[0].effects if e[0] == "store"]
-            ok = len(stores) == 1 and stores[0][2] == ("field", ("param", 1), "barrier", A.SB)
+            # stores into other fields are not this rule's business
+            stores = [e for e in ps[0].effects if e[0] == "store" and e[2] == ("field", ("param", 1), "barrier", A.SB)]
+            ok = len(stores) == 1
             if ok:
                 v = stores[0][3]
                 fields, idx, base = S.table_access(ab, v[2][0]) if _is_call(ab, v, "len") else ([], [], None)
